@@ -869,6 +869,8 @@ pub enum Res {
     Ok,
     Never,
     Finished,
+    /// the bridge could not decode the response
+    Undecodable,
 }
 
 impl RState {
@@ -908,6 +910,28 @@ impl RState {
                     Res::Finished
                 }
             }
+        }
+    }
+
+    /// Bridge: a response that does not decode. A one-shot request is used up by it (its task sees
+    /// the request gone); a stream is untouched; a notification rejects before looking at the bytes.
+    pub fn malformed(&mut self, h: u16) -> Res {
+        let hs = self.handles[h as usize].clone();
+        match hs.kind {
+            Kind::Never => Res::Never,
+            Kind::Once => {
+                if hs.resolved {
+                    return Res::Never;
+                }
+                self.handles[h as usize].resolved = true;
+                for r in &mut self.roots {
+                    if r.deliver(h, Inp::Gone).is_some() {
+                        break;
+                    }
+                }
+                Res::Undecodable
+            }
+            Kind::Many => Res::Undecodable,
         }
     }
 
